@@ -491,7 +491,9 @@ def workload(ctx):
         tight = [lambda c: p.Power(c, X_), lambda c: p.Power(X_, c), lambda c: p.Quotient(Y_, c),
                  lambda c: p.FloorDiv(c, p.Sum((p.Power(X_, 2), 1))), lambda c: p.Remainder(c, 7),
                  lambda c: p.Product((-1, p.Power(c, 2))), lambda c: p.Power(p.Power(c, 2), X_)]
-        consts = [-3, -1, -2.5, 2, True]
+        # (negative zero, constants whose text starts with a minus sign without being < 0,
+        #  floats printed with an exponent sign: -0.0, -2j, 1e-05, -1e+20)
+        consts = [-3, -1, -2.5, 2, True, -0.0, complex(1, -2), complex(-1, 2), 1e-05, -1e+20]
         for i, (lo, ti, c) in enumerate(itertools.product(low, tight, consts)):
             if not ctx.mine("repeated-constant"):
                 continue
@@ -502,6 +504,18 @@ def workload(ctx):
                 ctx.count("repeated_constant_shapes")
                 ctx.run("C13.compile", (e, [], False, i))
                 ctx.run("C13.ast", (e, i))
+        # purely imaginary constants print as '-2j': in source that is -(2j), whose real part is
+        # -0.0 where the constant's is 0.0 -- equal numbers, on different sides of the branch cut
+        # of a fractional power; judged at INTEGER exponents (variable k), where it cannot matter
+        K_ = p.Variable("k")
+        for i, c in enumerate([complex(0, -2), complex(0, -0.5), -0.0, complex(-0.0, 3)]):
+            for e in (p.Power(c, K_), p.Product((3, p.Power(c, K_))), p.Sum((p.Power(c, 2), c, K_)),
+                      p.Quotient(K_, p.Power(c, 2)), p.Product((-1, p.Power(c, K_)))):
+                if ctx.mine("imaginary"):
+                    ctx.case(normal.typed_key(e), True, n=0)
+                    ctx.count("signed_zero_and_imaginary_shapes")
+                    ctx.run("C13.compile", (e, [], False, i))
+                    ctx.run("C13.ast", (e, i))
         # lazy constructs whose unselected part FAULTS: the decided operand comes first, the
         # faulty one later (or in the branch not taken); every shape at points that decide it
         Zc = p.Comparison(X_, "==", 0)
@@ -514,6 +528,12 @@ def workload(ctx):
                      p.LogicalOr((Zc, b, p.Comparison(Y_, "<", 0))),
                      p.If(Zc, Y_, p.If(b, 1, 2)), p.If(p.LogicalNot(Zc), p.If(b, 1, 2), Y_),
                      p.LogicalAnd((p.LogicalOr((Zc, b)), p.Comparison(Y_, ">=", Y_)))]
+        # ... and a FAULTING condition over branches that are the same expression (the same
+        # object, or equal ones): the condition is still evaluated, its error still raised
+        for b in bad:
+            s1 = p.Sum((Y_, 1))
+            lazy += [p.If(b, Y_, Y_), p.If(b, 1, 1), p.If(b, s1, s1), p.If(b, s1, p.Sum((Y_, 1))),
+                     p.If(p.FloorDiv(6, X_), Y_, Y_), p.Sum((p.If(b, 2, 2), X_))]
         for i, e in enumerate(lazy):
             if not ctx.mine("lazy"):
                 continue
@@ -526,6 +546,7 @@ def workload(ctx):
             ctx.count("handler:" + k, v)
     ctx.floor("subclass_calls", 1000)
     ctx.floor("lazy_fault_shapes", 20)
+    ctx.floor("signed_zero_and_imaginary_shapes", 15)
     ctx.floor("repeated_constant_shapes", 100)
     ctx.floor("compiled", 2000)
     ctx.floor("compiled_calls", 10000)
